@@ -517,6 +517,7 @@ void vs_observe_u64(uint64_t v) { vs_observe(&v, sizeof v); }
 void vs_event(int id) { if (R && id >= 0 && id < 64) R->events |= 1ull << id; }
 void vs_watch(const volatile void* addr, size_t n, const char* name)
 {
+    for (int i = 0; i < NW; ++i) if (W[i].a == addr && W[i].n == n) return; // already watched
     if (NW < MAXWATCH) { W[NW].a = addr; W[NW].n = n; W[NW].name = name; ++NW; }
     vs_name(addr, name);
 }
